@@ -178,6 +178,8 @@ def snap(v, memo):
         return o
     if isinstance(v, SList):
         return v.snapshot()
+    if hasattr(v, "dom") and hasattr(v, "val") and hasattr(v, "snapshot"):
+        return v.snapshot()
     if isinstance(v, list):
         return [snap(x, memo) for x in v]
     if isinstance(v, tuple):
